@@ -17,7 +17,14 @@ use rustc_hir as hir;
 use rustc_hir::def::{DefKind, Res};
 use rustc_hir::def_id::{DefId, LocalDefId};
 use rustc_middle::mir;
-use rustc_middle::ty::print::{with_crate_prefix, with_no_trimmed_paths};
+use rustc_middle::ty::print::{with_crate_prefix, with_no_trimmed_paths, with_no_visible_paths};
+
+macro_rules! pp {
+    ($e:expr) => {
+        with_crate_prefix!(with_no_visible_paths!(with_no_trimmed_paths!($e)))
+    };
+}
+
 use rustc_middle::ty::{self, TyCtxt};
 use rustc_span::Span;
 use std::fmt::Write as _;
@@ -60,10 +67,10 @@ fn s(x: impl Into<String>) -> J {
 
 impl<'tcx> Dumper<'tcx> {
     fn path(&self, did: DefId) -> String {
-        with_crate_prefix!(with_no_trimmed_paths!(self.tcx.def_path_str(did)))
+        pp!((self.tcx.def_path_str(did)))
     }
     fn ty_s(&self, t: ty::Ty<'tcx>) -> String {
-        with_crate_prefix!(with_no_trimmed_paths!(format!("{}", t)))
+        pp!((format!("{}", t)))
     }
     fn span_s(&self, sp: Span) -> String {
         let sp = sp.source_callsite();
@@ -411,7 +418,7 @@ impl<'tcx> Dumper<'tcx> {
                 if let Some(did) = tr.type_dependent_def_id(e.hir_id) {
                     o.push(("def", s(self.path(did))));
                     let ga = tr.node_args(e.hir_id);
-                    o.push(("gargs", J::Arr(ga.iter().map(|a| s(with_crate_prefix!(with_no_trimmed_paths!(format!("{}", a))))).collect())));
+                    o.push(("gargs", J::Arr(ga.iter().map(|a| s(pp!((format!("{}", a))))).collect())));
                 }
                 o.push(("recv", self.expr(recv, tr)));
                 o.push(("recv_ty", s(self.ty_s(tr.expr_ty_adjusted(recv)))));
@@ -537,7 +544,7 @@ impl<'tcx> Dumper<'tcx> {
                 self.qpath(qp, e.hir_id, tr, &mut o);
                 let ga = tr.node_args(e.hir_id);
                 if !ga.is_empty() {
-                    o.push(("gargs", J::Arr(ga.iter().map(|a| s(with_crate_prefix!(with_no_trimmed_paths!(format!("{}", a))))).collect())));
+                    o.push(("gargs", J::Arr(ga.iter().map(|a| s(pp!((format!("{}", a))))).collect())));
                 }
             }
             K::AddrOf(_, m, x) => {
@@ -653,9 +660,9 @@ impl<'tcx> Dumper<'tcx> {
         o.push(("ty", s(self.ty_s(t))));
         if let ty::FnDef(did, args) = t.kind() {
             o.push(("fn", s(self.path(*did))));
-            o.push(("fn_args", J::Arr(args.iter().map(|a| s(with_crate_prefix!(with_no_trimmed_paths!(format!("{}", a))))).collect())));
+            o.push(("fn_args", J::Arr(args.iter().map(|a| s(pp!((format!("{}", a))))).collect())));
         } else {
-            let txt = with_crate_prefix!(with_no_trimmed_paths!(format!("{}", c.const_)));
+            let txt = pp!((format!("{}", c.const_)));
             o.push(("txt", s(txt)));
             if t.is_integral() || t.is_bool() || t.is_char() {
                 let _ = tcx;
@@ -852,11 +859,11 @@ impl<'tcx> Dumper<'tcx> {
                     t.push(("k", s("Call")));
                     if let Some((did, gargs)) = func.const_fn_def() {
                         t.push(("def", s(self.path(did))));
-                        let full = with_crate_prefix!(with_no_trimmed_paths!(tcx.def_path_str_with_args(did, gargs)));
+                        let full = pp!((tcx.def_path_str_with_args(did, gargs)));
                         t.push(("full", s(full)));
                         let mut ga = Vec::new();
                         for a in gargs.iter() {
-                            let mut go: Vec<(&'static str, J)> = vec![("txt", s(with_crate_prefix!(with_no_trimmed_paths!(format!("{}", a)))))];
+                            let mut go: Vec<(&'static str, J)> = vec![("txt", s(pp!((format!("{}", a)))))];
                             if let Some(t) = a.as_type() {
                                 match t.kind() {
                                     ty::FnDef(d, _) => go.push(("fn", s(self.path(*d)))),
